@@ -183,7 +183,7 @@ def dump_tables(ck, exe):
     p = ck.run([exe], input="T\n", timeout=120)
     if p.returncode != 0 or "end" not in p.stdout.split():
         raise vlib.BuildError("table dump of Evaluator::FunctionGeneratorManager failed", (p.stdout + p.stderr)[-3000:])
-    tab = {"constants": [], "unary": [], "binary": [], "extops": []}
+    tab = {"constants": [], "unary": [], "binary": [], "extops": [], "constref": [], "uval": [], "bval": []}
     for line in p.stdout.splitlines():
         f = line.split()
         if not f:
@@ -196,6 +196,8 @@ def dump_tables(ck, exe):
             tab["binary"].append((f[1], f[2] == "rule", f[3]))
         elif f[0] == "extop":
             tab["extops"].append(f[1])
+        elif f[0] in ("constref", "uval", "bval"):
+            tab[f[0]].append(tuple(f[1:]))
     src = ["/- GENERATED by checks/c13lib.py from the real Evaluator::FunctionGeneratorManager (T2 dump) — do not edit -/",
            "namespace TfelVerif.C13.GenTable",
            "/-- physical constants: name, bits of the double, rendering -/",
@@ -670,3 +672,66 @@ def export_verdict_derivative(rendering, env, value):
     if lits and abs(v - value) <= tol:
         return "same-to-string", v
     return "different", v
+
+
+# ---------------------------------------------------------------------------------- tables against the documented language
+# The model follows the dumped tables (T2), so a wrong entry of the table itself (name bound to another libm
+# function or to another constant) is judged here, against references stated independently of Evaluator.cxx:
+# the harness prints PhysicalConstants<double>::X for the documented meaning of each constant name, and the value
+# of every registered function at sample points; the expected function of a *registered name* is CXX_F1/CXX_F2.
+UVAL_POINTS = (0.3, 1.7, -0.6, 0.0)
+BVAL_POINTS = ((1.7, 0.3), (0.3, 1.7), (-0.6, 0.25))
+
+
+def table_defects(tab):
+    """list of (key, what, replay) for table entries that do not denote the documented constant/function"""
+    bad = []
+    for row in tab.get("constref", []):
+        name, ref, how, got = row
+        if ref == "?":
+            continue
+        if how != "val" or got != ref:
+            bad.append(("table:constant:" + name,
+                        "the value of '%s*1' is %s; the physical constant of that name (PhysicalConstants.hxx) is %r" % (
+                            name, ("%r" % hex_dbl(got)) if how == "val" else "an exception", hex_dbl(ref)),
+                        {"formula": name + "*1", "getValue": hex_dbl(got) if how == "val" else None, "expected": hex_dbl(ref),
+                         "site": "src/Math/Evaluator.cxx:FunctionGeneratorManager::FunctionGeneratorManager"}))
+    for row in tab.get("uval", []):
+        name, vals = row[0], row[1:]
+        fn = CXX_F1.get(name)
+        if fn is None:
+            continue
+        for x0, h in zip(UVAL_POINTS, vals):
+            try:
+                want = fn(x0)
+            except (ValueError, OverflowError, ZeroDivisionError):
+                continue
+            if isinstance(want, complex) or want != want:
+                continue
+            got = None if h == "err" else hex_dbl(h)
+            if got is None or not close(got, want, 1e-12):
+                bad.append(("table:function:" + name,
+                            "%s(x) at x = %r evaluates to %s; the function of that name has the value %r" % (
+                                name, x0, "an exception" if got is None else repr(got), want),
+                            {"formula": "%s(x)" % name, "point": {"x": x0}, "getValue": got, "expected": want,
+                             "site": "src/Math/Evaluator.cxx:FunctionGeneratorManager / Evaluator::Heavyside"}))
+                break
+    for row in tab.get("bval", []):
+        name, vals = row[0], row[1:]
+        fn = CXX_F2.get(name)
+        if fn is None:
+            continue
+        for (x0, y0), h in zip(BVAL_POINTS, vals):
+            try:
+                want = fn(x0, y0)
+            except (ValueError, OverflowError, ZeroDivisionError):
+                continue
+            got = None if h == "err" else hex_dbl(h)
+            if got is None or not close(got, want, 1e-12):
+                bad.append(("table:function:" + name,
+                            "%s(x,y) at (%r, %r) evaluates to %s; the function of that name has the value %r" % (
+                                name, x0, y0, "an exception" if got is None else repr(got), want),
+                            {"formula": "%s(x,y)" % name, "point": {"x": x0, "y": y0}, "getValue": got, "expected": want,
+                             "site": "src/Math/Evaluator.cxx:FunctionGeneratorManager / Evaluator::max / Evaluator::min"}))
+                break
+    return bad
